@@ -721,6 +721,23 @@ def gen_C12(r):
         # started by a parent that ignores SIGCHLD (inherited across exec): the kernel reaps the tar child
         # itself and its exit status is not available
         rop["sig_ign"] = ["CHLD"]
+    if r.random() < 0.2:
+        # a non-root user whose outputs hold read-only directories: Conductor cannot remove its own staging copy
+        # (shutil.rmtree fails, silently where ignore_errors is set) - in this restore and in the attempts before
+        rop["rmtree_fails"] = True
+        if r.random() < 0.85 and rop["archive"] == "A0":
+            # ... typically: an attempt that was killed after it had unpacked the archive, then the restore of a
+            # damaged copy of it
+            # (directed crash point: right before the n-th directory the restore creates - the staging directory is
+            # the first or second one, the directories of the restored versions come after the extraction)
+            ops.append({"op": "restore", "archive": "A0", "cwd": "",
+                        "kill_fs": {"name": "mkdir", "match": ".task.", "exclude": "archive-tmp", "n": 1, "when": "call"}})
+            rop["corrupt"] = r.choice([{"kind": "no_index"}, {"kind": "missing_member", "idx": 0},
+                                       {"kind": "missing_member", "idx": 1}, {"kind": "truncate", "frac": 0.5}])
+            rop.pop("tar_killed", None)
+        for o in ops:
+            if o["op"] == "restore":
+                o["rmtree_fails"] = True
     ops.append(rop)
     step = len(ops) - 1
     if r.random() < 0.3:
